@@ -43,6 +43,8 @@ inductive Obj where
 /-- abstract import system: `none` = the module cannot be imported or an attribute on the path is missing -/
 structure Env where
   lookup : String → String → Option Obj
+  /-- `f.__qualname__` of the function object `f` (what the name it is found under is compared with) -/
+  funcQual : FuncId → String
 
 /-- module and qualified name under which each class / function is reachable -/
 structure Names where
@@ -197,10 +199,13 @@ def funcOf (env : Env) (m q : String) : Except PyErr FuncId :=
   match env.lookup m q with
   | none => .error .nameLookup
   | some o =>
+    -- the function found must be the one that was named: a name now bound to another function (the inner function of a
+    -- decorator without functools.wraps) is stale
+    let named (f : FuncId) : Except PyErr FuncId := if env.funcQual f == q then .ok f else .error .invalidType
     match unwrapObj o with
-    | .func f => .ok f
-    | .boundMethod f => .ok f
-    | .prop (some g) false false => .ok g
+    | .func f => named f
+    | .boundMethod f => named f
+    | .prop (some g) false false => named g
     | .prop _ _ _ => .error .invalidType
     | _ => .error .invalidType
 
